@@ -45,9 +45,10 @@ NOTES = ("Extraction is cross-checked: for C01/C12/C13/C14/C15/C17 and all optim
          "current working tree; (3) direct monitors that search for a concrete failing input.  See DESIGN.md.")
 
 GEOM_NOTE = ("Trusted: Coq kernel; extraction + float64 shim; harness/driver transport.  States with several occupied sites are inside the model "
-             "and the theorems (copies = sites x operations).  coq/model/Geom.v is hand-written, including the "
-             "shape constructors (from_radial/polygon, from_trimer, circle) and the enclosing radius, "
-             "(nalgebra's 3x3 product, Transform*Point with its normaliser branch, serde layout are MODELLED) and tied to the code "
+             "and the theorems (copies = sites x operations).  coq/model/Geom.v is hand-written; its numeric functions, shape "
+             "constructors, areas, enclosing radii, overlap tests, score functions and position pipelines are proved EQUAL to their "
+             "translations from the source text of this run (proofs/Src*.v), while nalgebra's 3x3 product, Transform*Point with its "
+             "normaliser branch and the serde layout are MODELLED; in addition the model is tied to the running code "
              "on every run: its binary64 instance is compared with the implementation's placements, images, areas and scores "
              "(bit-exact up to signed zeros, else within 1e-12) on states injected through the public Deserialize.  Theorems are "
              "over the reals for the same program text; floating-point rounding in the geometry layer is not reasoned about.  "
